@@ -13,16 +13,25 @@
       (C11's theorems, restated).
    With these, equal inputs of the key schedule (init secret of the old epoch, commit secret,
    PSK secret, new group context) - a function, compared byte for byte with RFC 9420 in C13 -
-   give equal epoch secrets.  NOT proved: that the common-ancestor position of every receiver
-   is non-filtered and that the receiver holds a key in the copath resolution (the invariant
-   'a non-blank parent has members on both sides' is missing); ./check C01 exercises exactly
+   give equal epoch secrets.
+    - decryption side (Model/Decap.v, from decap / find_resolved_pos / find_ciphertext_pos and
+      a structural specification of resolutions proved equal to the stack algorithm of
+      get_resolution_index): for EVERY tree, receiver and exclusion list, the receiver's
+      position in the committer's path is never filtered; whatever ciphertext position decap
+      selects, the committer sealed that ciphertext to a node whose key the receiver holds
+      (PrivOK, C09); and a member always finds a ciphertext, PROVIDED it holds the key of its
+      first non-blank node below the common ancestor or is listed there as unmerged leaf.
+   NOT proved: that this proviso is an invariant of every reachable state (it is what
+   'unmerged leaves' are for; ./check C01 and C09 exercise it on the implementation, with
+   directed histories in which adds land in holes below re-keyed parents); ./check C01 exercises
    this on the implementation: random histories with every operation kind, three providers
    mixed in one group, several cipher suites and commit options; after every commit all
    members are compared on context, tree, authenticator, exported secrets, and every member
    decrypts what every other member sends.
    Statements only. *)
 From Coq Require Import NArith List Bool.
-From MlsV Require Import KemSecrets KemSecretsProofs Filter FilterProofs Pending PendingProofs.
+From MlsV Require Import Res TreeMathGen Tree Kem Priv PrivProofs Decap DecapProofs KemSecrets KemSecretsProofs Filter FilterProofs Pending PendingProofs.
+Local Open Scope N_scope.
 Import ListNotations.
 
 Theorem C01_receivers_reach_the_committers_commit_secret :
@@ -71,3 +80,37 @@ Print Assumptions C01_secrets_exactly_at_non_filtered_positions.
 Print Assumptions C01_receivers_apply_what_the_committer_kept.
 Print Assumptions C01_epoch_advances_by_at_most_one.
 Print Assumptions C01_an_accepted_commit_appends_exactly_itself.
+
+Theorem C01_receiver_position_is_never_filtered :
+  forall t me k id,
+  (k <= 29)%nat -> lvl_node (N.of_nat k) me < tlen t -> get t (2 * me) = Some (Leaf id) ->
+  resolution_empty t (lvl_node (N.of_nat k) me) = Ok false.
+Proof. exact receiver_position_not_filtered. Qed.
+Print Assumptions C01_receiver_position_is_never_filtered.
+
+Theorem C01_decap_opens_what_was_sealed_to_a_key_it_holds :
+  forall ks t me pr k excl i key,
+  PrivOK ks me pr ->
+  decap_select t me pr k excl = Ok (Some (i, key)) ->
+  exists recips x, sealed_to t (lvl_node (N.of_nat k) me) excl = Ok recips /\
+                   nth_error recips i = Some x /\ ks x = Some key.
+Proof. exact decap_select_sound. Qed.
+Print Assumptions C01_decap_opens_what_was_sealed_to_a_key_it_holds.
+
+Theorem C01_member_finds_its_ciphertext_partial :
+  forall t me pr k excl id leafkey,
+  (k <= 29)%nat -> lvl_node (N.of_nat k) me < tlen t ->
+  get t (2 * me) = Some (Leaf id) -> ~ In me excl ->
+  nth_error pr O = Some (Some leafkey) ->
+  (let k' := down t me k in
+   (exists key, nth_error pr k' = Some (Some key)) \/
+   (exists um, get t (lvl_node (N.of_nat k') me) = Some (Par um) /\ In me um)) ->
+  exists i key, decap_select t me pr k excl = Ok (Some (i, key)).
+Proof. exact decap_select_complete. Qed.
+Print Assumptions C01_member_finds_its_ciphertext_partial.
+
+Theorem C01_stack_resolution_is_the_structural_resolution :
+  forall t k j, (k <= 29)%nat -> TreeMathProofs.node (N.of_nat k) j < tlen t ->
+  resolution_of t (TreeMathProofs.node (N.of_nat k) j) = Ok (reso_spec t k j).
+Proof. exact resolution_of_spec. Qed.
+Print Assumptions C01_stack_resolution_is_the_structural_resolution.
